@@ -6,19 +6,21 @@ rows = []
 for d in sorted(glob.glob(os.path.join(V, 'seeded', '*', ''))):
     m = json.load(open(os.path.join(d, 'meta.json')))
     name = os.path.basename(os.path.dirname(d))
-    target = name.split('-')[0]
+    target = __import__('re').sub(r'^(R\d|X)', 'C' if name.startswith('X') else '', name.split('-')[0])
+    fe = m.get('first_evaluation')
     caught = m.get('caught_by', [])
     sigs = []
     for k, v in m.get('checks', {}).items():
         if k.startswith(target + '/') and v.get('signatures'): sigs = v['signatures'][:2]; break
     rows.append((name, target, m.get('summary', '').replace('\n', ' ').replace('|', '/')[:170], m.get('trigger', '').replace('\n', ' ').replace('|', '/')[:150],
-                 'yes' if target in caught else 'NO', ', '.join(c for c in caught if c != target) or '-', '; '.join(s.replace('|', '/')[:70] for s in sigs)))
+                 ('yes' if target in fe['caught_by'] else 'no') if fe else '', 'yes' if target in caught else 'NO', ', '.join(c for c in caught if c != target) or '-', '; '.join(s.replace('|', '/')[:70] for s in sigs)))
 out = ['# Seeded breaking changes and the checks that catch them', '',
        'Each change was produced by a sub-agent that saw only the property text, compiles, passes the 492 stable tests (confirmed in a scratch worktree: `confirm/`),',
-       'and was applied to /repo only for the duration of the run (`tools/seeded_eval.py`). Quick tier.', '',
-       '| change | what was changed | needs | caught by its own check | also caught by | first signatures |', '|---|---|---|---|---|---|']
-for r in rows: out.append('| %s | %s | %s | %s | %s | %s |' % (r[0], r[2], r[3], r[4], r[5], r[6]))
-n = len(rows); c = sum(1 for r in rows if r[4] == 'yes')
+       'and was applied to /repo only for the duration of the run (`tools/seeded_eval.py`) or to a scratch worktree of /repo HEAD (`tools/seeded_scratch.py`). Quick tier.\n'
+       '`caught at first evaluation` = by the checks as they were before the change was used to strengthen them (own check, seeds 1-3); X* changes were written by hand.', '',
+       '| change | what was changed | needs | caught at first evaluation | caught by its own check now | also caught by | first signatures |', '|---|---|---|---|---|---|---|']
+for r in rows: out.append('| %s | %s | %s | %s | %s | %s | %s |' % (r[0], r[2], r[3], r[4], r[5], r[6], r[7]))
+n = len(rows); c = sum(1 for r in rows if r[5] == 'yes')
 out += ['', '%d of %d seeded changes are caught by the check of the property they were written against (quick tier).' % (c, n)]
 open(os.path.join(V, 'seeded', 'REPORT.md'), 'w').write('\n'.join(out) + '\n')
 print('\n'.join(out[-1:]))
